@@ -35,6 +35,36 @@ print("@@" + json.dumps(bad))
 """
 
 
+def undefined_names(path: Path) -> list[str]:
+    """Names a generated module reads as globals (at module level or inside any function / class body) that it neither
+    binds at module level (imports - also those under TYPE_CHECKING -, defs, classes, assignments) nor finds among the
+    builtins: a NameError waiting for the branch that reads it.  CPython's own symbol table does the scoping."""
+    import builtins
+    import symtable
+
+    src = path.read_text(encoding="utf-8")
+    top = symtable.symtable(src, str(path), "exec")
+    bound = {sym.get_name() for sym in top.get_symbols() if sym.is_assigned() or sym.is_imported() or sym.is_namespace() or sym.is_parameter()}
+    ok = bound | set(dir(builtins)) | {"__file__", "__name__", "__doc__", "__package__", "__spec__", "__path__", "__all__", "__annotations__", "__builtins__", "__class__"}
+    missing: set[str] = set()
+
+    def visit(t) -> None:
+        for sym in t.get_symbols():
+            n = sym.get_name()
+            if not sym.is_referenced():
+                continue
+            if t.get_type() == "module":
+                if not (sym.is_assigned() or sym.is_imported() or sym.is_namespace()) and n not in ok:
+                    missing.add(n)
+            elif sym.is_global() and n not in ok:
+                missing.add(n)
+        for c in t.get_children():
+            visit(c)
+
+    visit(top)
+    return sorted(missing)
+
+
 def compile_and_import(pkg_dir: Path, root: Path, package: str) -> list[str]:
     problems = []
     import warnings
@@ -49,6 +79,10 @@ def compile_and_import(pkg_dir: Path, root: Path, package: str) -> list[str]:
     if problems:
         return problems
     problems += dangling_imports(pkg_dir)
+    for p in sorted(pkg_dir.rglob("*.py")):
+        miss = undefined_names(p)
+        if miss:
+            problems.append(f"{p.relative_to(root)}: names read but never bound (NameError at run time): {miss}")
     if problems:
         return problems
     env = dict(os.environ, PYTHONDONTWRITEBYTECODE="1")
